@@ -167,6 +167,14 @@ def analyse_client(case, ir):
                 if busy[k] > 0:
                     out.append(Finding("reaper_closed_busy", "the reaper pass at %d closed session %d, which carries %d live stream(s)" % (t, k, busy[k]),
                                        never_reused=int(not reused[k]), session=k, min_idle=M))
+            # sessions the pool must still hold after the pass: live, idle (no stream), never handed out for reuse (a reused
+            # session has left the idle map for good: known finding F3). The reaper may close such a session only beyond the
+            # first min_idle of them -- a dead entry does not count towards the minimum
+            cand_after = [k for k in range(min(nsess, len(flags))) if not flags[k] and busy[k] == 0 and not reused[k]]
+            cand_closed = [k for k in newly if busy[k] == 0 and not reused[k]]
+            if cand_closed and len(cand_after) < min(M, len(cand_after) + len(cand_closed)):
+                out.append(Finding("min_idle", "the reaper pass at %d closed the healthy idle session(s) %s and left %d healthy idle session(s) in all; "
+                                   "min_idle=%d of them must stay (a dead session in the pool does not count)" % (t, cand_closed, len(cand_after), M)))
             lb = max(0, prev_idle - dead_unpurged)
             if idle < min(M, lb):
                 out.append(Finding("min_idle", "the reaper pass at %d left %d idle session(s); at least min(min_idle=%d, %d live idle before) must stay" % (t, idle, M, lb)))
